@@ -59,6 +59,8 @@ pub fn build_text(c: &Value) -> String {
     lines.push(String::new());
     lines.push("> [q](2)".into());
     lines.push(String::new());
+    lines.push("w [[2]] x [[2|s]] y".into());
+    lines.push(String::new());
     lines.push("| h | k |".into());
     lines.push("|---|---|".into());
     lines.push("| c | [c](2) |".into());
@@ -92,7 +94,7 @@ fn run_case(c: &Value) -> Value {
     let mut cl = Client::start(state, Default::default());
     let u1 = uri("1");
     let last = c["last_line"].as_u64().unwrap_or(0);
-    let maxch = c["link_end"].as_u64().unwrap_or(0) + 6;
+    let maxch = c["maxch"].as_u64().unwrap_or(c["link_end"].as_u64().unwrap_or(0) + 6);
     let mut id = 0i64;
     let mut ids: Vec<(String, u64, u64, &'static str)> = vec![];
     for line in 0..=last + 1 {
